@@ -45,6 +45,9 @@ type mConn struct {
 	closes  int
 	outcome int
 	gate    chan struct{} // closed by the harness: the connection's HTTP traffic is over
+	// closing the TLS layer reports an error (close_notify could not be written: the peer reset the
+	// connection) - the connection is closed all the same, as crypto/tls does it
+	tlsCloseFails bool
 	tls     *tls.Conn
 }
 
@@ -154,7 +157,15 @@ func mConnectionState(c *tls.Conn) tls.ConnectionState {
 }
 
 //verif:replace (*crypto/tls.Conn).Close
-func mTLSClose(c *tls.Conn) error { return mm.under[c].Close() }
+func mTLSClose(c *tls.Conn) error {
+	err := mm.under[c].Close()
+	if mm.raw[c].tlsCloseFails {
+		return errMTLSClose
+	}
+	return err
+}
+
+var errMTLSClose = errors.New("tls: failed to send closeNotify alert (but connection was closed anyway): write: connection reset by peer (stub)")
 
 //verif:replace (*crypto/tls.Conn).RemoteAddr
 func mTLSRemoteAddr(c *tls.Conn) net.Addr { return mm.under[c].RemoteAddr() }
@@ -263,6 +274,7 @@ func mConcurrent(n int) {
 		c := &mConn{name: []string{"198.51.100.1:1", "198.51.100.2:2", "198.51.100.3:3"}[i], gate: make(chan struct{})}
 		c.outcome = vRange(vName("outcome", i), 0, mOutcomes-1)
 		c.in = mHello(byte(0xA0 + i))
+		c.tlsCloseFails = vBool(vName("tlsCloseFails", i))
 		if c.outcome == mGarbage {
 			c.in = []byte("GET / HTTP/1.0\r\n\r\n")
 		}
